@@ -48,6 +48,8 @@ TEMPL = [
     ("{`class` * 2}", ["class"], [], [], None), ("scale(z, center=k)", ["z"], ["k"], [], None), ("cv", [], ["cv"], [], None),
     ("hashed(A, levels=3)", ["A"], [], [], None), ("`class`", ["class"], [], [], None), ("exp(ctxf(center(x)))", ["x"], [], ["ctxf"], None),
     ("{x * y - z}", ["x", "y", "z"], [], [], None), ("C(A, contr.treatment(base='u'))", ["A"], [], [], None),
+    ("I(x + cfg.opts.offset)", ["x"], ["cfg.opts.offset"], [], None), ("{z * cfg.k}", ["z"], ["cfg.k"], [], None),
+    ("np.linalg.norm([x, z], axis=0)", ["x", "z"], [], [], None), ("I(np.add.reduce([x, y]))", ["x", "y"], [], [], None),
     ("Q('z')", ["z"], [], [], "c17.Q_call_not_reported"), ("Q('x y')", ["x y"], [], [], "c17.Q_call_not_reported"),
     ("{y.clip(0, 1)}", ["y"], [], [], "c17.attribute_access_pseudo_variable"), ("I(z.abs())", ["z"], [], [], "c17.attribute_access_pseudo_variable"),
     ("{sum([q for q in [x, z]])}", ["x", "z"], [], [], "c17.lambda_or_comprehension"), ("{(lambda t: t * 2)(z)}", ["z"], [], [], "c17.lambda_or_comprehension"),
@@ -85,7 +87,10 @@ def judge_required(case) -> Outcome:
     used = [TEMPL[i] for t in case["terms"] for i in t]
     out.sig = (tuple(sorted({i for t in case["terms"] for i in t})), case["two"], tuple(sorted(len(t) for t in case["terms"])))
     df = mkdata(case["seed"])
-    ctx = {"k": 2.0, "cv": np.arange(N, dtype=float), "ctxf": ctxf}
+    import types
+
+    ctx = {"k": 2.0, "cv": np.arange(N, dtype=float), "ctxf": ctxf,
+           "cfg": types.SimpleNamespace(k=3.0, opts=types.SimpleNamespace(offset=1.5))}
     D = sorted({v for f in used for v in f[1]})
     K = sorted({v for f in used for v in f[2]})
     f = " + ".join(":".join(TEMPL[i][0] for i in t) for t in case["terms"])
@@ -161,6 +166,8 @@ def judge_required(case) -> Outcome:
             bysrc[k_] |= set(v)
     if set(bysrc.get("data", ())) != set(D):
         classify(bysrc.get("data", ()), D, "variables_by_source data")
+    if None in bysrc and not k4:
+        out.fail("c17.source_unresolved", f"{f!r}: variables {sorted(bysrc[None])} are reported with no source although every name is bound in data, context or transforms")
     ctxnames = {v for fct in used for v in fct[2] + fct[3]}
     if not ctxnames <= set(bysrc.get("context", ())):
         out.fail("c17.source_context", f"{f!r}: context names {sorted(ctxnames)} not reported under 'context': {dict((k, sorted(v)) for k, v in bysrc.items())}")
